@@ -277,8 +277,13 @@ func loadRulesMetadata() *config.Metadata {
 }
 
 func ConvertConfig(tmplData *configTemplateData, w io.Writer) {
+	// Removing deprecated options only makes sense for a file that is already
+	// in the v2 format; a v1 file (which has no General.ConfigurationVersion)
+	// is converted by the template below, which drops what no longer exists.
 	var removedItems []string
-	tmplData.Data, removedItems = removeDeprecated(tmplData.Data)
+	if _, isV2 := _fetch(tmplData.Data, "General.ConfigurationVersion"); isV2 {
+		tmplData.Data, removedItems = removeDeprecated(tmplData.Data)
+	}
 
 	if len(removedItems) > 0 {
 		fmt.Fprintf(w, "# The following deprecated config options were removed:\n")
